@@ -1208,6 +1208,14 @@ func doWalk(cs *connState, ref *fidRef, names []string, getattr bool) (qids []QI
 	if len(names) == 0 {
 		var sf File // Temporary.
 		if err := ref.maybeParent().safelyRead(func() (err error) {
+			// Cloning is a read operation on ref's own path as well, not
+			// only on its parent's: hold ref's node lock too, unless ref is
+			// a root, whose own node is already locked above.
+			if !ref.hasParent() {
+				ref.pathNode.opMu.RLock()
+				defer ref.pathNode.opMu.RUnlock()
+			}
+
 			// Clone the single element.
 			qids, sf, valid, attr, err = walkOne(nil, ref.file, nil, getattr)
 			if err != nil {
